@@ -78,6 +78,15 @@ impl<'a, 'b> Gen<'a, 'b> {
         let n = self.t.below(6);
         let mut defs = vec![];
         let rsp = var("RSP", 8);
+        // x86 flavour: flags are overwritten all the time, so they are dead on most edges unless a
+        // conditional jump reads them (keeps the liveness analysis honest about jump conditions)
+        if self.t.prob(90) {
+            for (k, f) in ["ZF", "CF"].iter().enumerate() {
+                let e = gen_bool(self.t, &Env { ints: reg_pool(), bools: vec![], idioms: false, muldiv: false, casts: false }, 1);
+                defs.push(assign(instr_tid(base + 0x18 + k as u64, 0), &var(f, 1), e));
+            }
+            self.feat("flags-redefined-at-block-start");
+        }
         for i in 0..n {
             let tid = instr_tid(base + i as u64, 0);
             let k = self.t.below(20);
@@ -586,7 +595,7 @@ pub fn run(eng: &mut Engine) {
         "entry SP is 64-byte aligned and all generated alignment masks are -4..-64; `SP = c - SP` is not generated".into(),
         "Return targets are registers, loaded temporaries or expressions over registers (what lifted code contains)".into(),
     ];
-    let cases = eng.tier.pick(60_000u64, 3_000_000u64);
+    let cases = eng.tier.pick(300_000u64, 8_000_000u64);
     eng.random(
         "optimize-differential",
         RandomSpec { cases, max_tape: 1400 },
